@@ -476,7 +476,7 @@ class C12:
             "and nested tuples built separately; tuples of classes; two distinct classes with one name; ranges; inf, NaN) plus 15 kinds of "
             "unhashable keys (fresh, variable-held, and the map itself / containers of it); literals with 120-255 entries; keys and values are referenced only by the map; each history runs under collect-at-every-allocation and "
             "under a PRNG collection tape (both with quarantine: premature reclaim = use-after-reclaim event) and in the plain release "
-            "build. non-trivial = the history has >= 1 overwrite of an equal key, hit or removal; distinct = distinct history hash")
+            "build. non-trivial = the history has >= 1 overwrite of an equal key, hit or removal; distinct = distinct history hash Every history also runs on the plain checked build (real frees: address reuse).")
     COMPONENTS = {"real": ["hash_map_* natives, BuildHashMap", "Value::hash / Value::eq / tuple hashing", "collector (mark/sweep of maps, keys, values)", "compiler, VM"],
                   "stub": ["collection schedule and quarantine (verif_hooks)", "typed event channel (printer seam)"]}
     ASSUMPTIONS = ["which of two == keys a map keeps on overwrite is not stated: enumerations are compared as multisets modulo == (0 and -0 are one key)",
